@@ -170,9 +170,6 @@ Print Assumptions C01_iteration_in_order.
 
 (* (9) Where the faithful model of the Go code violates the reference evaluator: the known findings.  Each witness
    is outside the guard. *)
-Theorem C01_values_in_test_refuted : fst (runM 60 w_values_test) <> fst (runS 60 w_values_test) /\ guardb 60 w_values_test = false.
-Proof. exact values_in_test_refuted. Qed.
-Print Assumptions C01_values_in_test_refuted.
 Theorem C01_let_binds_values_refuted : fst (runM 60 w_let_values) <> fst (runS 60 w_let_values) /\ guardb 60 w_let_values = false.
 Proof. exact let_binds_values_refuted. Qed.
 Print Assumptions C01_let_binds_values_refuted.
@@ -266,3 +263,14 @@ Theorem C01_loop_form_primary_value :
                     | Ok (VInt 2), Ok (VInt 3) => true | _, _ => false end) [Slip; Ref; Chk] = true.
 Proof. exact loop_form_primary_value. Qed.
 Print Assumptions C01_loop_form_primary_value.
+
+(* tests (repo_fixes/C01-19): if, when, unless, cond, and, do, do* decide by the primary value of the test form, in every
+   mode (so the conditional laws (4) speak about the same test in M and S). *)
+Theorem C01_truthy_primary : forall m v, truthy m v = Ok (negb (is_nil (primary v))).
+Proof. exact truthy_primary. Qed.
+Print Assumptions C01_truthy_primary.
+Theorem C01_tests_look_at_primary_value :
+  forallb (fun m => match fst (run m 60 w_values_test), fst (run m 60 w_values_tests) with
+                    | Ok (VInt 2), Ok (VList [VNil; VInt 4; VInt 6; VNil; VInt 2]) => true | _, _ => false end) [Slip; Ref; Chk] = true.
+Proof. exact tests_look_at_primary_value. Qed.
+Print Assumptions C01_tests_look_at_primary_value.
